@@ -133,3 +133,11 @@ CLAIMED['C17'] = (
     'Lattice.get_all_distances by contract; metric exactly invariant under the group (checked); one symbolic axis at a time, one position; groups with few operations; z3.',
     'DESIGN.md §3 C17')
 NOT_APPLICABLE.pop('C17', None)
+CLAIMED['C18'] = (
+    'symbolic execution of Orientations (vector construction, normalize, symmetrize, transform, spherical r, autocorrelation via the FFT contract) on symbolic coordinates/vectors/matrices; z3',
+    'Bond vectors proved equal to the minimum-image offset times the lattice for every centre position in the cell and every offset in the bound; normalize as quotient (numerator = component, denominator = length), '
+    'symmetrize = one image per operation (checked against the group), transform = matrix product for a symbolic 3x3 matrix; autocorrelation proved equal to the definition under the intended transform length, '
+    'while the real call (irfft default length) is a listed known finding reproduced by replay.',
+    'np.fft by contract; arcsin/arctan2 uninterpreted (only r checked); frame 0 concrete; vector-length identity only on orthogonal cells with one symbolic axis (thorough); z3.',
+    'DESIGN.md §3 C18')
+NOT_APPLICABLE.pop('C18', None)
